@@ -134,7 +134,74 @@ let wb_mode line =
     Printf.sprintf "%s %s %s" (show s'.target) (show s'.tmp) (match r with Returned -> "returned" | RaisedOut -> "raised" | Killed -> "killed")
   | _ -> failwith "bad wb input"
 
+(* ---- trace checker: records of an observed fix run, one per line (see harness/tracer.py) ---- *)
+let rk_of_int = function 0 -> RCode | 1 -> RWs | 2 -> RCr | 3 -> RBlank | 4 -> RComment | 5 -> RDText | 6 -> RPrep | _ -> RIgnore
+let rec take n l = if n = 0 then ([], l) else match l with x :: r -> let (a, b) = take (n - 1) r in (x :: a, b) | [] -> failwith "short record"
+(* tok: ident role kind len cp* *)
+let rec parse_atoks n l =
+  if n = 0 then ([], l) else
+  match l with
+  | id :: role :: kd :: len :: r ->
+    let (cps, r') = take len r in
+    let (ts, r'') = parse_atoks (n - 1) r' in
+    ({ a_id = n_of_int id; a_role = n_of_int role; a_kind = rk_of_int kd; a_val = str_of_ints cps } :: ts, r'')
+  | _ -> failwith "bad token record"
+let canon (l : atok list) : string =
+  let b = Buffer.create 65536 in
+  List.iter (fun t ->
+    Buffer.add_string b (string_of_int (int_of_n t.a_id)); Buffer.add_char b ':';
+    Buffer.add_string b (string_of_int (int_of_n t.a_role)); Buffer.add_char b ':';
+    List.iter (fun c -> Buffer.add_string b (string_of_int (int_of_n c)); Buffer.add_char b ',') t.a_val;
+    Buffer.add_char b ';') l;
+  Digest.to_hex (Digest.string (Buffer.contents b))
+let b2i b = if b then 1 else 0
+let trace_file path =
+  let ic = open_in path in
+  let cur = ref [] in
+  (try
+    while true do
+      let line = input_line ic in
+      match String.split_on_char ' ' line with
+      | "I" :: rest ->
+        let l = List.map int_of_string (List.filter (fun s -> s <> "") rest) in
+        (match l with n :: r -> let (ts, _) = parse_atoks n r in cur := ts; Printf.printf "I %d %d\n" n (b2i (kinds_ok ts)) | _ -> failwith "bad I")
+      | "R" :: tag :: digest :: rest ->
+        let l = List.map int_of_string (List.filter (fun s -> s <> "") rest) in
+        (match l with
+         | ne :: r ->
+           let rec edits k r = if k = 0 then ([], r) else
+             (match r with
+              | st :: en :: _ln :: nn :: r1 ->
+                let (ts, r2) = parse_atoks nn r1 in
+                let (es, r3) = edits (k - 1) r2 in
+                ({ e_start = nat_of_int st; e_stop = nat_of_int en; e_new = ts } :: es, r3)
+              | _ -> failwith "bad edit") in
+           let (es, _) = edits ne r in
+           let v = judge !cur es in
+           let replay = (canon v.v_after = digest) in
+           cur := v.v_after;
+           Printf.printf "R %s %d %d %d %d %d %d %d %d %d %d %d %d %d %d %d |%s\n" tag (b2i v.v_wf) (b2i replay) (b2i v.v_c01) (b2i v.v_c01_strict) (b2i v.v_paren) (b2i v.v_lenpres)
+             (b2i v.v_c02) (b2i v.v_c02_rem) (b2i v.v_layout) (b2i v.v_case) (b2i v.v_ident) (b2i v.v_same_count) (b2i v.v_cterm) (b2i v.v_wsadj) (b2i v.v_kinds_ok)
+             (String.concat "" (List.map (fun n -> " " ^ string_of_int (int_of_nat n)) v.v_changed))
+         | _ -> failwith "bad R")
+      | "S" :: isnorm :: rest ->
+        let l = List.map int_of_string (List.filter (fun s -> s <> "") rest) in
+        (match l with
+         | n :: r ->
+           let (ts, _) = parse_atoks n r in
+           let ok =
+             if isnorm = "1" then coarse (normalise !cur) = coarse (List.map to_tok ts)
+             else canon !cur = canon ts in
+           cur := ts; Printf.printf "S %s %d\n" isnorm (b2i ok)
+         | _ -> failwith "bad S")
+      | "E" :: digest :: _ -> Printf.printf "E %d\n" (b2i (canon !cur = digest))
+      | _ -> ()
+    done
+  with End_of_file -> ());
+  close_in ic
+
 let () =
+  if Array.length Sys.argv > 2 && Sys.argv.(1) = "trace" then (trace_file Sys.argv.(2); exit 0);
   let mode = if Array.length Sys.argv > 1 then Sys.argv.(1) else "tokenizer" in
   let f = match mode with
     | "tokenizer" -> tokenizer
